@@ -219,7 +219,7 @@ fn big_counts(g: &mut Grid) {
             let b = cap(|| a.clone());
             let k = vrt::rmwlog::len();
             let _ = Arc::count(&a);
-            let addr = vrt::rmwlog::since(k).iter().find(|o| o.kind == vrt::rmwlog::AKind::Load).map(|o| o.addr).expect("count read issued no load");
+            let addr = vrt::rmwlog::since(k).iter().find(|o| o.kind != vrt::rmwlog::AKind::Fence).map(|o| o.addr).expect("reading the count touched no atomic");
             let word = unsafe { &*(addr as *const AtomicUsize) };
             word.store(v, Ordering::SeqCst);
             let block = a.heap_ptr() as usize;
